@@ -19,8 +19,10 @@ class C01(Check):
     trusted = ["hex/base64/base32 text codecs of Go's encoding/* are outside the model (fields held as the octets they denote)",
                "EDNS0 option and SVCB parameter values are (code, packed value) pairs at this level"]
 
-    partial = ["wire -> value -> wire (record_converse_partial) covers 70 of the 81 types: not the kinds nsec, opt, svcb, apl, name lists "
-               "and gateway (AMTRELAY, APL, CSYNC, HIP, HTTPS, IPSECKEY, NSEC, NSEC3, NXT, OPT, SVCB), which the harness checks",
+    partial = ["wire -> value -> wire (record_converse) covers all 81 types under the canonicity condition plain_fields2 (names written "
+               "in full, canonical bitmap blocks, masked APL addresses, option/SVCB values that their codecs do not normalise) and for "
+               "records with RDATA; the non-canonical encodings the decoder accepts and the RDATA-less records are *_refuted witnesses and "
+               "harness findings (C01/rdataless-repack/<TYPE>)",
                "the message-level uncompressed round trip is proved through C04's unpack_of_pack for canonical messages; header and "
                "RCODE split by exhaustive kernel-checked sweeps"]
 
